@@ -41,7 +41,9 @@ EXTENDS Naturals, Sequences, FiniteSets, TLC
 
 CONSTANTS HdrSets,      \* the subsets of Hdrs enumerated in this configuration
           Methods,      \* subset of {"GET","POST","CONNECT","EXT"}
-          Schemes       \* subset of {"http","https","ws","wss","other"}
+          Schemes,      \* subset of {"http","https","ws","wss","other"}
+          SeqDom        \* domains of the pooled-history vectors (kind "seq"): a record of sets
+                        \* [alpn, method, scheme, host, port, path, hdrs]
 
 ConnVers  == {"h1", "h2"}
 ReqVers   == {"1.0", "1.1", "2"}
@@ -58,7 +60,19 @@ ReqVectors == { v \in [kind : {"req"}, conn : ConnVers, rv : ReqVers, method : M
                        hdrs : HdrSets] :
                   v.scheme = "other" => v.port \in {"absent", "other"} }
 SelVectors == [kind : {"sel"}, rv : ReqVers, alpn : Alpns]
-Vectors == ReqVectors \cup SelVectors
+\* kind "seq": a request with version rv that is served by a POOLED connection which an earlier request of the same
+\* client (version prv, ALPN result alpn) opened to the same origin.  The pool key is scheme + authority only, so
+\* the connection's protocol is the one selected for (prv, alpn), whatever rv asks for.  (A TLS connection is only
+\* made for https/wss, so ALPN results other than "notls" are paired with those schemes.)
+SeqVectors == { v \in [kind : {"seq"}, prv : ReqVers, alpn : SeqDom.alpn, rv : ReqVers, method : SeqDom.method,
+                       scheme : SeqDom.scheme, host : SeqDom.host, port : SeqDom.port, path : SeqDom.path,
+                       query : BOOLEAN, preset : Presets, hdrs : SeqDom.hdrs] :
+                  /\ (v.scheme = "other" => v.port \in {"absent", "other"})
+                  /\ (v.alpn # "notls" => v.scheme \in {"https", "wss"}) }
+Vectors == ReqVectors \cup SelVectors \cup SeqVectors
+\* the request of a seq vector as a req vector on a connection of version c
+AsReq(v, c) == [kind |-> "req", conn |-> c, rv |-> v.rv, method |-> v.method, scheme |-> v.scheme, host |-> v.host,
+                port |-> v.port, path |-> v.path, query |-> v.query, preset |-> v.preset, hdrs |-> v.hdrs]
 
 ---------------------------------------------------------------------------
 (* The property text.                                                      *)
@@ -97,8 +111,10 @@ FailedClause(v, o, I(_)) ==
       [] OTHER -> "none"
 
 \* the whole expected outcome (named components; the rest follows the transcription below)
+RECURSIVE Expected(_)
 Expected(v) ==
-    IF v.kind = "sel" THEN [kind |-> "connected", proto |-> ExpProto(v)]
+    IF v.kind = "seq" THEN Expected(AsReq(v, ExpProto([rv |-> v.prv, alpn |-> v.alpn])))
+    ELSE IF v.kind = "sel" THEN [kind |-> "connected", proto |-> ExpProto(v)]
     ELSE IF v.conn = "h1"
       THEN [kind |-> "sent", target |-> ExpTarget(v), hosts |-> <<ExpHost(v)>>, ver |-> v.rv, hdrs |-> v.hdrs]
     ELSE IF v.method = "CONNECT" THEN [kind |-> "error"]
@@ -122,47 +138,69 @@ InitReq(v) == IF v.kind = "req"
                 THEN [target |-> <<"ABSOLUTE">>,
                       hosts  |-> IF v.preset = "none" THEN <<>> ELSE <<(<<"PRESET">>)>>,
                       ver    |-> v.rv, hdrs |-> v.hdrs]
+                ELSE IF v.kind = "seq"
+                THEN [target |-> <<"ABSOLUTE">>,
+                      hosts  |-> IF v.preset = "none" THEN <<>> ELSE <<(<<"PRESET">>)>>,
+                      ver    |-> v.rv, hdrs |-> v.hdrs, conn |-> "none"]
                 ELSE [proto |-> "none"]
 
 Init == /\ vec \in Vectors
         /\ stage = "new"
         /\ req = InitReq(vec)
 
-IsReq == vec.kind = "req"
-\* service/host.rs SetHostHeader (ExecuteRequest impl): only below HTTP/2, only if absent
-SetHostInsert == /\ IsReq /\ stage = "new" /\ vec.conn = "h1" /\ req.hosts = <<>>
-                 /\ req' = [req EXCEPT !.hosts = <<CodeHost(vec)>>]
+\* the request as the layers see it: on the connection named by the vector (kind "req") or on the pooled
+\* connection it was handed (kind "seq")
+IsReq == vec.kind \in {"req", "seq"}
+View  == IF vec.kind = "seq" THEN AsReq(vec, req.conn) ELSE vec
+LayerStart == IF vec.kind = "seq" THEN "reused" ELSE "new"
+\* pooled history (kind "seq"): the earlier request opens the connection (pool/service.rs connect_to + protocol/auto.rs
+\* handshake, decided by ITS version and the ALPN result), the connection goes idle / stays shareable in the pool ...
+EstablishH2byVersion == /\ vec.kind = "seq" /\ stage = "new" /\ vec.prv = "2"
+                        /\ req' = [req EXCEPT !.conn = "h2"] /\ stage' = "pooled" /\ UNCHANGED vec
+EstablishH2byAlpn    == /\ vec.kind = "seq" /\ stage = "new" /\ vec.prv # "2" /\ vec.alpn = "h2"
+                        /\ req' = [req EXCEPT !.conn = "h2"] /\ stage' = "pooled" /\ UNCHANGED vec
+EstablishH1          == /\ vec.kind = "seq" /\ stage = "new" /\ vec.prv # "2" /\ vec.alpn # "h2"
+                        /\ req' = [req EXCEPT !.conn = "h1"] /\ stage' = "pooled" /\ UNCHANGED vec
+\* ... and pool/mod.rs checkout hands it to the next request for that origin: the key is scheme + authority, the
+\* request's version plays no role, the connection keeps ITS version
+PoolReuse == /\ vec.kind = "seq" /\ stage = "pooled"
+             /\ stage' = "reused" /\ UNCHANGED <<vec, req>>
+\* service/host.rs SetHostHeader (ExecuteRequest impl, below the pool): only below HTTP/2, only if absent
+SetHostInsert == /\ IsReq /\ stage = LayerStart /\ View.conn = "h1" /\ req.hosts = <<>>
+                 /\ req' = [req EXCEPT !.hosts = <<CodeHost(View)>>]
                  /\ stage' = "hosted" /\ UNCHANGED vec
-SetHostKeep   == /\ IsReq /\ stage = "new" /\ ~(vec.conn = "h1" /\ req.hosts = <<>>)
+SetHostKeep   == /\ IsReq /\ stage = LayerStart /\ ~(View.conn = "h1" /\ req.hosts = <<>>)
                  /\ stage' = "hosted" /\ UNCHANGED <<vec, req>>
 \* service/http.rs http2::check_http2_request
-H2Reject == /\ IsReq /\ stage = "hosted" /\ vec.conn = "h2" /\ vec.method = "CONNECT"
+H2Reject == /\ IsReq /\ stage = "hosted" /\ View.conn = "h2" /\ vec.method = "CONNECT"
             /\ stage' = "error" /\ UNCHANGED <<vec, req>>
-H2Strip  == /\ IsReq /\ stage = "hosted" /\ vec.conn = "h2" /\ vec.method # "CONNECT"
+H2Strip  == /\ IsReq /\ stage = "hosted" /\ View.conn = "h2" /\ vec.method # "CONNECT"
             /\ req' = [req EXCEPT !.ver = "2", !.hdrs = @ \ ConnSpecific, !.hosts = <<>>]
             /\ stage' = "h2checked" /\ UNCHANGED vec
-H2Skip   == /\ IsReq /\ stage = "hosted" /\ vec.conn = "h1"
+H2Skip   == /\ IsReq /\ stage = "hosted" /\ View.conn = "h1"
             /\ stage' = "h2checked" /\ UNCHANGED <<vec, req>>
 \* service/http.rs http1::check_http1_request
-H1Authority == /\ IsReq /\ stage = "h2checked" /\ vec.conn = "h1" /\ vec.method = "CONNECT"
+H1Authority == /\ IsReq /\ stage = "h2checked" /\ View.conn = "h1" /\ vec.method = "CONNECT"
                /\ req' = [req EXCEPT !.target = <<"AUTHORITY">>]
                /\ stage' = "sent" /\ UNCHANGED vec
-H1Origin    == /\ IsReq /\ stage = "h2checked" /\ vec.conn = "h1" /\ vec.method # "CONNECT"
-               /\ req' = [req EXCEPT !.target = CodeOrigin(vec)]
+H1Origin    == /\ IsReq /\ stage = "h2checked" /\ View.conn = "h1" /\ vec.method # "CONNECT"
+               /\ req' = [req EXCEPT !.target = CodeOrigin(View)]
                /\ stage' = "sent" /\ UNCHANGED vec
-H1Skip      == /\ IsReq /\ stage = "h2checked" /\ vec.conn = "h2"
+H1Skip      == /\ IsReq /\ stage = "h2checked" /\ View.conn = "h2"
                /\ stage' = "sent" /\ UNCHANGED <<vec, req>>
 \* pool/service.rs connect_to (request version -> HttpProtocol) + protocol/auto.rs handshake (ALPN switch)
-HandshakeH2byVersion == /\ ~IsReq /\ stage = "new" /\ vec.rv = "2"
+IsSel == vec.kind = "sel"
+HandshakeH2byVersion == /\ IsSel /\ stage = "new" /\ vec.rv = "2"
                         /\ req' = [proto |-> "h2"] /\ stage' = "connected" /\ UNCHANGED vec
-HandshakeH2byAlpn    == /\ ~IsReq /\ stage = "new" /\ vec.rv # "2" /\ vec.alpn = "h2"
+HandshakeH2byAlpn    == /\ IsSel /\ stage = "new" /\ vec.rv # "2" /\ vec.alpn = "h2"
                         /\ req' = [proto |-> "h2"] /\ stage' = "connected" /\ UNCHANGED vec
-HandshakeH1          == /\ ~IsReq /\ stage = "new" /\ vec.rv # "2" /\ vec.alpn # "h2"
+HandshakeH1          == /\ IsSel /\ stage = "new" /\ vec.rv # "2" /\ vec.alpn # "h2"
                         /\ req' = [proto |-> "h1"] /\ stage' = "connected" /\ UNCHANGED vec
 
 Next == \/ SetHostInsert \/ SetHostKeep \/ H2Reject \/ H2Strip \/ H2Skip
         \/ H1Authority \/ H1Origin \/ H1Skip
         \/ HandshakeH2byVersion \/ HandshakeH2byAlpn \/ HandshakeH1
+        \/ EstablishH2byVersion \/ EstablishH2byAlpn \/ EstablishH1 \/ PoolReuse
 Spec == Init /\ [][Next]_vars
 
 Done == stage \in {"sent", "error", "connected"}
@@ -172,9 +210,11 @@ Outcome == IF stage = "error" THEN [kind |-> "error"]
 
 Id(t) == t
 TypeOK == /\ vec \in Vectors
-          /\ stage \in {"new", "hosted", "h2checked", "sent", "error", "connected"}
-\* the property on the model
-InvC13 == Done => C13(vec, Outcome, Id)
+          /\ stage \in {"new", "pooled", "reused", "hosted", "h2checked", "sent", "error", "connected"}
+\* the property on the model (a seq vector is judged as its request on the connection it was REALLY handed)
+InvC13 == Done => C13(View, Outcome, Id)
+\* the pooled connection of a seq vector has the protocol the text selects for the request that opened it
+InvSeqConn == vec.kind = "seq" /\ stage # "new" => req.conn = ExpProto([rv |-> vec.prv, alpn |-> vec.alpn])
 \* the transcription produces exactly the expected outcome, unnamed components included
 InvExpected == Done => Outcome = Expected(vec)
 =============================================================================
